@@ -14,7 +14,8 @@ RULE = ("Hypothesis-generated finite ancilla environments (dimension 1..3, gener
         "constant or step dependent, optional ancilla dephasing/damping channel, mixed ancilla states) turned into "
         "hand-built process tensors (rank-4, rank-3 delta, Liouville-rotated rank-4 with transforms, Hilbert-rotated "
         "rank-3 with transforms), 0..3 environments, systems d=2..3 (constant / time dependent, Lindblad terms), "
-        "control schedules, every permutation of the tensor list, tensors of different lengths in one list (the "
+        "control schedules, every permutation of the tensor list, initial states handed over C-/F-ordered, strided, "
+        "read-only or as transposed views, tensors of different lengths in one list (the "
         "computation covers the shortest), num_steps prefixes, record_all=False; oracle = explicit joint density-matrix evolution "
         "(R-anc) at every step, tolerance 1e-10. Sum rule / order independence for PT-TEMPO tensors within the "
         "truncation tolerance. Non-trivial: at least one environment whose joint unitary is entangling and N >= 2 "
@@ -47,6 +48,8 @@ def s_case(draw, tier):
             "trivial_pt": draw(st.booleans()), "pass_dt": draw(st.booleans()),
             "prefix": draw(st.one_of(st.none(), st.integers(1, N))),
             # process tensors of different lengths in one list: the computation covers the shortest (N steps)
+            # memory layout in which the caller hands over the initial state (same numbers)
+            "rho0_layout": draw(st.sampled_from(["C", "C", "F", "strided", "T-of-T", "readonly"])),
             "longer": [0] + [draw(st.sampled_from([0, 0, 1, 2])) for _ in range(max(0, nenv - 1))] if nenv else []}
 
 
@@ -72,6 +75,10 @@ def run_case(case):
     d, N, dt, t0 = case["d"], case["N"], case["dt"], case["t0"]
     system = sysgen.build_system(case["sys"])
     rho0 = gens.build_dm(case["rho0"])
+    if case.get("rho0_layout", "C") != "C":
+        from checks.c20 import layout
+        rho0 = layout(rho0, case["rho0_layout"])
+        out.label("rho0-layout=" + case["rho0_layout"])
     longer = case.get("longer") or [0] * len(case["envs"])
     envs = [ancgen.build_env(s, d, N + longer[i], dt=dt if (i == 0 or case["pass_dt"]) else None)
             for i, s in enumerate(case["envs"])]
